@@ -12,7 +12,9 @@ Scripts ==
       dtor      |-> <<"appCreate", "move", "execQuit", "appDestroy", "reset">>, \* quit, then the destructor's stop
       cycle     |-> <<"appCreate", "move", "reset", "move", "reset">>,      \* start/stop cycles
       noexec    |-> <<"appCreate", "move", "appDestroy", "reset">>,         \* application destroyed without exec()
-      noapp     |-> <<"move", "reset">> ]                                   \* no application object at all
+      noapp     |-> <<"move", "reset">>,
+      inproc    |-> <<"appCreate", "move", "reset">>,                        \* what the in-process harness does ...
+      inproc2   |-> <<"appCreate", "move", "reset", "move", "reset">> ]      \* ... with a second cycle                                   \* no application object at all
 
 Scripts2 == [ none |-> <<>>, reset |-> <<"reset">>, move |-> <<"move">> ]
 
@@ -22,6 +24,9 @@ MCInit ==
     /\ todo = [t \in Producers |-> [i \in 1..NMsgs |-> <<t, i>>]]
     /\ \E a \in ScriptSet, b \in Script2Set :
           script = [s \in Stoppers |-> IF s = "M" THEN Scripts[a] ELSE Scripts2[b]]
+
+\* used with -simulate to get complete behaviours out of TLC: "violated" when everything is over
+NotFinished == ~(Done /\ ~tptr)
 
 MCSpec == MCInit /\ [][Next]_vars
 MCFairSpec == MCInit /\ [][Next]_vars /\ Fairness
